@@ -195,7 +195,7 @@ def miri(prop, leg, tier, seed, root, env):
 
 
 def fuzz(prop, leg, tier, seed, root, env):
-    d = os.path.join(root, "fuzz")
+    d = os.path.join(root, "fuzzproj")
     rep = _blank(prop, leg["name"], tier, seed)
     secs = leg.get("seconds", 120)
     e = dict(env)
@@ -218,14 +218,19 @@ def fuzz(prop, leg, tier, seed, root, env):
     rep["distinct_nontrivial"] = max(cov) if cov else 0
     rep["counters"]["fuzz_seconds"] = secs
     rep["counters"]["fuzz_coverage_edges"] = max(cov) if cov else 0
-    art = os.path.join(d, "artifacts", "decode_verify")
+    art = os.path.join(d, "fuzz", "artifacts", "decode_verify")
     crashes = [f for f in (os.listdir(art) if os.path.isdir(art) else []) if f.startswith("crash-")]
     import shutil
     if crashes:
         os.makedirs(os.path.join(root, "replays"), exist_ok=True)
+        pan = [l.strip() for l in text.splitlines() if "panicked at" in l]
+        msg = pan[0] if pan else text[-300:]
+        i = text.find(pan[0]) if pan else -1
+        if i >= 0:
+            msg = " ".join(text[i:i + 400].split())
         for c in crashes[:3]:
             data = open(os.path.join(art, c), "rb").read()
-            rep["violations"].append({"signature": "fuzz:crash", "detail": "libFuzzer crash input %s (%d bytes): %s" % (c, len(data), text[-600:]),
+            rep["violations"].append({"signature": "fuzz:crash", "detail": "libFuzzer crash input %s (%d bytes): %s" % (c, len(data), msg[:400]),
                                       "replay": {"kind": "fuzz-input", "bytes": data.hex()}})
         rep["violation_counts"]["fuzz:crash"] = len(crashes)
         shutil.rmtree(art, ignore_errors=True)
